@@ -1,44 +1,11 @@
 /-
 C02 — `retrieveReturned` (drain the completion queues) preserves the invariant.
 -/
-import Iox2.Proof.PubSubC02PubLemmas
+import Iox2.Proof.PubSubC02Update
 
 namespace Iox2.PubSub.C02P
 open Iox2.PubSub
 open Iox2.C16.SlotMapP (abs WInv)
-
-/-! ### facts derived from the invariant -/
-
-theorem TopInv.conn_unique {G : GT} {w : World} (hi : TopInv G w) {p : Nat} {P : Pub}
-    (hP : getP w p = some P) {s : Nat} :
-    ∀ i j : Nat, P.conns[i]? = some (some s) → P.conns[j]? = some (some s) → i = j := by
-  intro i j h1 h2
-  obtain ⟨S1, hS1, e1, _⟩ := (hi.pubs p P hP).conn i s h1
-  obtain ⟨S2, hS2, e2, _⟩ := (hi.pubs p P hP).conn j s h2
-  rw [hS1] at hS2; cases hS2
-  omega
-
-theorem TopInv.ex_of_mem {G : GT} {w : World} (hi : TopInv G w) {p : Nat} {P : Pub}
-    (hP : getP w p = some P) {s : Nat} (hm : some s ∈ P.conns) : P.ex = true := by
-  cases h : P.ex with
-  | true => rfl
-  | false => have := (hi.pubs p P hP).dead h _ hm; simp at this
-
-/-- everything the invariant says about a connection the sender is attached to -/
-theorem Inv.sender {G : GT} {A : GA} {w : World} (hi : Inv G A w) {p s : Nat} {P : Pub} {c : Conn}
-    (hP : getP w p = some P) (hC : getC w p s = some c) (hs : c.sAtt = true) :
-    c.pid = p ∧ c.sid = s ∧ some s ∈ P.conns ∧ P.ex = true ∧ PubAcc A w p P ∧
-    ∃ S, getS w s = some S ∧ ConnTop c P S ∧ ConnAcc w.cfg c P S := by
-  obtain ⟨hpid, hsid, _⟩ := getC_some hC
-  obtain ⟨P0, S, hP0, hS, ct⟩ := hi.top.conns p s c hC
-  rw [hP] at hP0; cases hP0
-  have hmem : some s ∈ P.conns := by rw [← hsid]; exact ct.sAtt.mp hs
-  have hex := hi.top.ex_of_mem hP hmem
-  exact ⟨hpid, hsid, hmem, hex, (hi.acc.pubs p P hP).1 hex, S, hS, ct, hi.acc.conns p s c hC P S hP hS⟩
-
-theorem usedBit_of_getC {w : World} {p s : Nat} {c : Conn} (hC : getC w p s = some c) (x : Nat) :
-    usedBit w p s x = c.used.getD x false := by
-  unfold usedBit; rw [hC]
 
 /-! ### one entry of a completion queue -/
 
@@ -147,7 +114,14 @@ theorem drain_one {G : GT} {A : GA} {w : World} {p s : Nat} {P : Pub} {c : Conn}
         exact ⟨fun hx => (h1 hx).congr (fun t x _ => hubo q t x (fun h => hq h.1)), h2⟩
     · intro t T hT
       rw [hgS] at hT
-      exact hi.acc.subs t T hT
+      obtain ⟨h1, h2, h3⟩ := hi.acc.subs t T hT
+      refine ⟨h1, h2, fun ha x hx => ?_⟩
+      obtain ⟨Q, hQ, hq⟩ := h3 ha x hx
+      rw [hgP]
+      by_cases hxp : x.pid = p
+      · rw [hxp] at hQ; rw [hP] at hQ; cases hQ
+        exact ⟨P.releaseChunk ch, by simp [hxp], by simpa using hq⟩
+      · exact ⟨Q, by simp [hxp, hQ], hq⟩
     · -- connections
       intro a b cn hcn Pa Sb hPa hSb
       rw [hgC] at hcn; rw [hgP] at hPa; rw [hgS] at hSb; rw [hcfg]
@@ -212,5 +186,175 @@ theorem drain_one {G : GT} {A : GA} {w : World} {p s : Nat} {P : Pub} {c : Conn}
           exact (hi.acc.conns a b cn hcn P Sb hP hSb).congr (by simp) (by simp) rfl rfl
         · simp only [ha, if_false] at hPa
           exact hi.acc.conns a b cn hcn Pa Sb hPa hSb
+
+/-! ### what `retrieveReturned` leaves unchanged -/
+
+def eraseRF (P : Pub) : Pub := { P with rc := [], free := [] }
+def eraseCU (c : Conn) : Conn := { c with comp := [], used := [] }
+
+structure DrainRel (w w' : World) : Prop where
+  cfg : w'.cfg = w.cfg
+  pubReg : w'.pubReg = w.pubReg
+  subReg : w'.subReg = w.subReg
+  panicked : w'.panicked = w.panicked
+  subs : ∀ t, getS w' t = getS w t
+  pubs : ∀ q, (getP w' q).map eraseRF = (getP w q).map eraseRF
+  conns : ∀ a b, (getC w' a b).map eraseCU = (getC w a b).map eraseCU
+  mono : ∀ a b c c', getC w a b = some c → getC w' a b = some c' →
+    (c'.comp = [] ∨ c'.comp = c.comp) ∧ ∀ x, c'.used.getD x false = true → c.used.getD x false = true
+
+theorem DrainRel.refl (w : World) : DrainRel w w :=
+  ⟨rfl, rfl, rfl, rfl, fun _ => rfl, fun _ => rfl, fun _ _ => rfl, fun a b c c' h h' => by
+    rw [h] at h'; cases h'; exact ⟨Or.inr rfl, fun _ hx => hx⟩⟩
+
+theorem DrainRel.trans {w1 w2 w3 : World} (h1 : DrainRel w1 w2) (h2 : DrainRel w2 w3) :
+    DrainRel w1 w3 := by
+  refine ⟨h2.cfg.trans h1.cfg, h2.pubReg.trans h1.pubReg, h2.subReg.trans h1.subReg,
+    h2.panicked.trans h1.panicked, fun t => (h2.subs t).trans (h1.subs t),
+    fun q => (h2.pubs q).trans (h1.pubs q), fun a b => (h2.conns a b).trans (h1.conns a b), ?_⟩
+  intro a b c c'' hc hc''
+  obtain ⟨c', hc', _⟩ := map_eq_some_left (h1.conns a b).symm hc
+  obtain ⟨m1, m2⟩ := h1.mono a b c c' hc hc'
+  obtain ⟨m3, m4⟩ := h2.mono a b c' c'' hc' hc''
+  refine ⟨?_, fun x hx => m2 x (m4 x hx)⟩
+  rcases m3 with m3 | m3
+  · exact Or.inl m3
+  · rw [m3]; exact m1
+
+/-- all entries of a completion queue -/
+theorem drain_all {G : GT} {A : GA} {p s : Nat} :
+    ∀ (comp : List Nat) (w : World) (P : Pub) (c : Conn), Inv G A w → getP w p = some P →
+      getC w p s = some c → c.sAtt = true → c.comp = comp →
+      Inv G A (setC (setP w p (drainComp P c.used comp).1)
+        { c with comp := [], used := (drainComp P c.used comp).2 }) ∧
+      eraseRF (drainComp P c.used comp).1 = eraseRF P ∧
+      ∀ x, (drainComp P c.used comp).2.getD x false = true → c.used.getD x false = true := by
+  intro comp
+  induction comp with
+  | nil =>
+    intro w P c hi hP hC hs hcomp
+    simp only [drainComp]
+    refine ⟨?_, trivial, fun _ h => h⟩
+    have hc : { c with comp := [], used := c.used } = c := by cases c; simp at hcomp; subst hcomp; rfl
+    rw [hc]
+    apply hi.ext
+    obtain ⟨g1, g2, g3, _, _⟩ := get_update_PC (P' := P) hP hC (c' := c) rfl
+    refine ⟨rfl, rfl, rfl, ?_, g3, ?_, nodup_setC _ hi.top.reg.nodup⟩
+    · intro q; rw [g1]; split
+      · rename_i h; rw [h, hP]
+      · rfl
+    · intro a b; rw [g2]; split
+      · rename_i h; rw [h.1, h.2, hC]
+      · rfl
+  | cons ch r ih =>
+    intro w P c hi hP hC hs hcomp
+    obtain ⟨hused, hi1⟩ := drain_one hi hP hC hs hcomp
+    simp only [drainComp, hused, if_true]
+    obtain ⟨g1, g2, g3, _, _⟩ := get_update_PC (P' := P.releaseChunk ch) hP hC
+      (c' := { c with comp := r, used := c.used.set ch false }) rfl
+    have hP1 := g1 p; simp only [if_true] at hP1
+    have hC1 := g2 p s; simp only [and_self, if_true] at hC1
+    obtain ⟨j1, j2, j3⟩ := ih _ _ _ hi1 hP1 hC1 hs rfl
+    refine ⟨?_, ?_, ?_⟩
+    · apply j1.ext
+      obtain ⟨k1, k2, k3, _, _⟩ := get_update_PC
+        (P' := (drainComp (P.releaseChunk ch) (c.used.set ch false) r).1) hP1 hC1
+        (c' := { c with comp := [], used := (drainComp (P.releaseChunk ch) (c.used.set ch false) r).2 }) rfl
+      obtain ⟨l1, l2, l3, _, _⟩ := get_update_PC
+        (P' := (drainComp (P.releaseChunk ch) (c.used.set ch false) r).1) hP hC
+        (c' := { c with comp := [], used := (drainComp (P.releaseChunk ch) (c.used.set ch false) r).2 }) rfl
+      refine ⟨rfl, rfl, rfl, ?_, ?_, ?_, nodup_setC _ hi.top.reg.nodup⟩
+      · intro q; rw [l1]; rw [k1, g1]; split <;> rfl
+      · intro t; rfl
+      · intro a b; rw [l2]; rw [k2, g2]; split <;> rfl
+    · rw [j2]; simp [eraseRF]
+    · intro x hx
+      have := j3 x hx
+      simp only at this
+      rw [getD_set_bool] at this
+      split at this
+      · cases this
+      · exact this
+
+theorem drainRel_update {w : World} {p s : Nat} {P P' : Pub} {c : Conn} {u : List Bool}
+    (hP : getP w p = some P) (hC : getC w p s = some c) (e : eraseRF P' = eraseRF P)
+    (hm : ∀ x, u.getD x false = true → c.used.getD x false = true) :
+    DrainRel w (setC (setP w p P') { c with comp := [], used := u }) := by
+  obtain ⟨g1, g2, g3, _, _⟩ := get_update_PC (P' := P') hP hC
+    (c' := { c with comp := [], used := u }) rfl
+  refine ⟨rfl, rfl, rfl, rfl, g3, ?_, ?_, ?_⟩
+  · intro q; rw [g1]; split
+    · rename_i h; rw [h, hP]; simp [e]
+    · rfl
+  · intro a b; rw [g2]; split
+    · rename_i h; rw [h.1, h.2, hC]; rfl
+    · rfl
+  · intro a b c0 c1 h0 h1
+    rw [g2] at h1
+    split at h1
+    · rename_i h; rw [h.1, h.2, hC] at h0; cases h0; cases h1
+      exact ⟨Or.inl rfl, hm⟩
+    · rw [h0] at h1; cases h1; exact ⟨Or.inr rfl, fun _ hx => hx⟩
+
+theorem mem_conns_getC {G : GT} {w : World} (hi : TopInv G w) {p s : Nat} {P : Pub}
+    (hP : getP w p = some P) (hm : some s ∈ P.conns) :
+    ∃ c, getC w p s = some c ∧ c.sAtt = true := by
+  obtain ⟨i, hi'⟩ := List.mem_iff_getElem?.mp hm
+  obtain ⟨_, _, _, _, _, _, c, h1, h2⟩ := (hi.pubs p P hP).conn i s hi'
+  exact ⟨c, h1, h2⟩
+
+theorem retrieveFrom_inv {G : GT} {A : GA} {p : Nat} :
+    ∀ (slots : List (Option Nat)) (w : World) (P : Pub), Inv G A w → getP w p = some P →
+      (∀ s, some s ∈ slots → some s ∈ P.conns) →
+      Inv G A (retrieveFrom w p slots) ∧ DrainRel w (retrieveFrom w p slots) ∧
+      ∀ s c', some s ∈ slots → getC (retrieveFrom w p slots) p s = some c' → c'.comp = [] := by
+  intro slots
+  induction slots with
+  | nil => intro w P hi _ _; exact ⟨hi, DrainRel.refl w, fun s c' h => by simp at h⟩
+  | cons x r ih =>
+    intro w P hi hP hsl
+    cases x with
+    | none =>
+      simp only [retrieveFrom]
+      obtain ⟨h1, h2, h3⟩ := ih w P hi hP (fun s hs => hsl s (List.mem_cons_of_mem _ hs))
+      refine ⟨h1, h2, fun s c' hs => h3 s c' ?_⟩
+      simpa using hs
+    | some s =>
+      obtain ⟨c, hC, hs⟩ := mem_conns_getC hi.top hP (hsl s (by simp))
+      simp only [retrieveFrom, hP, hC]
+      obtain ⟨j1, j2, j3⟩ := drain_all c.comp w P c hi hP hC hs rfl
+      obtain ⟨g1, g2, g3, _, _⟩ := get_update_PC (P' := (drainComp P c.used c.comp).1) hP hC
+        (c' := { c with comp := [], used := (drainComp P c.used c.comp).2 }) rfl
+      have hP1 := g1 p; simp only [if_true] at hP1
+      have hC1 := g2 p s; simp only [and_self, if_true] at hC1
+      have hconns : (drainComp P c.used c.comp).1.conns = P.conns := by
+        have := congrArg Pub.conns j2; simpa [eraseRF] using this
+      obtain ⟨h1, h2, h3⟩ := ih _ _ j1 hP1
+        (fun t ht => by rw [hconns]; exact hsl t (List.mem_cons_of_mem _ ht))
+      have hd := drainRel_update hP hC j2 j3
+      refine ⟨h1, hd.trans h2, ?_⟩
+      intro t c' ht hc'
+      by_cases hts : t = s
+      · subst hts
+        have := (h2.mono p t _ c' hC1 hc').1
+        simpa using this
+      · apply h3 t c' ?_ hc'
+        rcases List.mem_cons.mp ht with h | h
+        · exact absurd (Option.some.inj h) hts
+        · exact h
+
+theorem retrieveReturned_inv {G : GT} {A : GA} {w : World} {p : Nat} (hi : Inv G A w) :
+    Inv G A (retrieveReturned w p) ∧ DrainRel w (retrieveReturned w p) ∧
+    ∀ P s c', getP w p = some P → some s ∈ P.conns → getC (retrieveReturned w p) p s = some c' →
+      c'.comp = [] := by
+  unfold retrieveReturned
+  cases hP : getP w p with
+  | none => exact ⟨hi, DrainRel.refl w, fun P s c' h => by cases h⟩
+  | some P =>
+    obtain ⟨h1, h2, h3⟩ := retrieveFrom_inv P.conns w P hi hP (fun s h => h)
+    refine ⟨h1, h2, ?_⟩
+    intro P' s c' hP' hs hc'
+    cases hP'
+    exact h3 s c' hs hc'
 
 end Iox2.PubSub.C02P
